@@ -1,0 +1,46 @@
+//go:build verif
+
+package verifapi
+
+import (
+	"context"
+	"time"
+
+	"github.com/glebziz/fs_db/internal/utils/wpool"
+)
+
+// Pool is the worker pool behind the cleaner (internal/utils/wpool).
+type Pool = wpool.Pool
+
+// PoolState is a snapshot of a pool's queues.
+type PoolState = wpool.VerifState
+
+// NewPool returns a pool with the given number of workers (channel capacity
+// 2*workers) and hand-over time-out. It is not running yet.
+func NewPool(workers int, sendDuration time.Duration) *Pool {
+	return wpool.New(wpool.Options{
+		NumWorkers:   workers,
+		SendDuration: sendDuration,
+	})
+}
+
+// PoolSend hands fn to the pool as one job.
+func PoolSend(ctx context.Context, p *Pool, caller string, fn func(ctx context.Context) error) {
+	p.Send(ctx, wpool.Event{
+		Caller: caller,
+		Fn:     fn,
+	})
+}
+
+// PoolSched schedules fn periodically.
+func PoolSched(ctx context.Context, p *Pool, caller string, fn func(ctx context.Context) error, period time.Duration) {
+	p.Sched(ctx, wpool.Event{
+		Caller: caller,
+		Fn:     fn,
+	}, period)
+}
+
+// PoolSnapshot reads the pool's queues (see wpool.VerifState).
+func PoolSnapshot(p *Pool) PoolState {
+	return p.VerifSnapshot()
+}
